@@ -186,6 +186,11 @@ func (c *c04Case) render(tpl string, data any) (string, error) {
 	if c.Entry == "file" {
 		return renderPage(Files{"page.vuego": tpl}, "page.vuego", data)
 	}
+	if c.Entry == "incroot" {
+		// the loop (and its v-else) is all a component's file holds: the file starts with the looped tag
+		a, b := strings.Index(tpl, "<!--COMP-->"), strings.Index(tpl, "<!--/COMP-->")
+		return renderStringFS(Files{"c.vuego": tpl[a+len("<!--COMP-->") : b]}, tpl[:a]+`<template include="c.vuego"></template>`+tpl[b+len("<!--/COMP-->"):], data)
+	}
 	return renderString(tpl, data)
 }
 
@@ -243,12 +248,22 @@ func (c *c04Case) build() (tpl string, data any, wantInst []string, wantElse boo
 		elseS = `<li v-else id="else">none</li>`
 	case "ws":
 		elseS = "\n  " + `<li v-else id="else">none</li>`
+	case "far":
+		// the loop has no v-else of its own; a later, unrelated chain in the same parent has one
+		elseS = `<li class="sep">s</li><li v-if="t" class="chain">yes</li><li v-else id="else">none</li>`
 	}
 	var loopS string
 	if c.Elem == "tmpl" {
 		loopS = `<template v-for="` + loop + `"><li class="inst">` + inner + `</li></template>`
+	} else if c.Elem == "tmplkey" { // the usual list-rendering hint on a looped <template>
+		loopS = `<template v-for="` + loop + `" :key="` + v + `"><li class="inst">` + inner + `</li></template>`
+	} else if c.Elem == "tmplshadow" { // the body has a <template> (never evaluated) that binds a variable named like the loop's
+		loopS = `<li class="inst" v-for="` + loop + `">` + inner + `<template v-if="nope" :` + v + `="1"><b>n</b></template></li>`
 	} else {
 		loopS = `<li class="inst" v-for="` + loop + `"` + attrs + `>` + inner + `</li>`
+	}
+	if c.Entry == "incroot" {
+		loopS, elseS = "<!--COMP-->"+loopS, elseS+"<!--/COMP-->"
 	}
 	tpl = `<ul><li id="before">` + pr(v) + `</li>` + loopS + elseS + `</ul><p id="after">` + pr(v) + `</p>`
 
@@ -278,6 +293,9 @@ func (c *c04Case) build() (tpl string, data any, wantInst []string, wantElse boo
 	}
 	// the v-else sibling is rendered exactly when the loop produced nothing
 	wantElse = c.Else != "none" && nKept == 0
+	if c.Else == "far" {
+		wantElse = false // that v-else belongs to the chain after the loop, whose v-if is true
+	}
 	// outer value of the loop variable name
 	m := map[string]any{"o": map[string]any{}, "outer": "OUT", "t": true, "name": "ROOTNAME"}
 	if present {
@@ -311,7 +329,7 @@ func (c *c04Case) build() (tpl string, data any, wantInst []string, wantElse boo
 }
 
 // loop variable names beyond [A-Za-z0-9]
-var c04Unusual = map[string]bool{"größe": true, "élément": true, "項": true, "_x": true, "it2": true, "$v": true, "last": true, "type": true}
+var c04Unusual = map[string]bool{"größe": true, "élément": true, "項": true, "_x": true, "it2": true, "$v": true, "last": true, "type": true, "key": true}
 
 // --- body part: every way a loop body can consume the item, differential against one-item loops
 
@@ -501,6 +519,13 @@ func (c *c04Case) Run(ctx *core.Ctx) {
 	if strings.Join(got, ",") != strings.Join(wantInst, ",") {
 		ctx.Violation("instances", where, trig, fmt.Sprintf("tpl %q: instances %v want %v (out %q)", tpl, got, wantInst, clip(out, 300)))
 	}
+	if c.Else == "far" {
+		// the siblings after the loop are rendered unchanged: the separator and the chain's taken branch
+		sep := htmlcmp.Find(nodes, func(n *html.Node) bool { cl, _ := htmlcmp.Attr(n, "class"); return cl == "sep" || cl == "chain" })
+		if len(sep) != 2 {
+			ctx.Violation("for-else", "far/"+c.Elem, c.Coll+fmt.Sprintf("/len%d", c.Len), fmt.Sprintf("tpl %q: the siblings after the loop are not rendered as they are (out %q)", tpl, clip(out, 300)))
+		}
+	}
 	if gotElse := htmlcmp.ByID(nodes, "else") != nil; gotElse != wantElse {
 		ctx.Violation("for-else", c.Else+"/"+c.Elem, c.Coll+fmt.Sprintf("/len%d", c.Len), fmt.Sprintf("tpl %q: v-else rendered=%v want %v (out %q)", tpl, gotElse, wantElse, clip(out, 300)))
 	}
@@ -586,7 +611,7 @@ func init() {
 	core.Register(&core.Check{
 		ID:    "C04",
 		Level: "exploration",
-		Rule: "every combination of collection kind (18: incl. slices with nil items, slices of any/int/int32/string/bool/map/struct (fields and the whole item printed)/*struct, array, pointer to slice / array, nil slice, nil value, missing) x length x access path x loop form (incl. the tight and padded spellings of (i, v)) x loop-variable name (fresh / shadows a map key / shadows a root struct field by name / by JSON tag / spelled with non-ASCII letters, digits, _ or $ / named like a function of the expression library) x v-else (none/adjacent/after whitespace) x looped element (plain, per-item v-if keeping some / no items, bindings, <template>) x root data (map/struct/*struct) x printing position ({{ }}, expression); plus nested loops; plus a body part: 23 ways a loop body can consume the item (text, deep text, interpolated/bound attribute, :class, :style, v-text, v-html, <template v-html>, v-show, inner v-if/v-else, <template :var>, include with bound / interpolated prop, slot content used once / twice, prop-less include, v-slot template without props, include without content, inner v-for, filters, pre) x 1..3 items x loop form x looped element x entry point, with the oracle: instance i shows item i and no other item and equals the single instance of a loop over [item i] alone, and the outer variables named like the loop variables have their outer values before and after the loop. " +
+		Rule: "every combination of collection kind (18: incl. slices with nil items, slices of any/int/int32/string/bool/map/struct (fields and the whole item printed)/*struct, array, pointer to slice / array, nil slice, nil value, missing) x length x access path x loop form (incl. the tight and padded spellings of (i, v)) x loop-variable name (fresh / shadows a map key / shadows a root struct field by name / by JSON tag / spelled with non-ASCII letters, digits, _ or $ / named like a function of the expression library) x v-else (none/adjacent/after whitespace) x looped element (plain, per-item v-if keeping some / no items, bindings, <template>, <template :key>, a body with an unevaluated <template> binding a variable named like the loop's) x root data (map/struct/*struct) x printing position ({{ }}, expression); the loop (with its v-else) as the whole content of a component file; plus nested loops; plus a body part: 23 ways a loop body can consume the item (text, deep text, interpolated/bound attribute, :class, :style, v-text, v-html, <template v-html>, v-show, inner v-if/v-else, <template :var>, include with bound / interpolated prop, slot content used once / twice, prop-less include, v-slot template without props, include without content, inner v-for, filters, pre) x 1..3 items x loop form x looped element x entry point, with the oracle: instance i shows item i and no other item and equals the single instance of a loop over [item i] alone, and the outer variables named like the loop variables have their outer values before and after the loop. " +
 			"oracle: reference interpreter gives the instance list, for-else presence and the value of the loop variable's name before and after the loop. non-trivial = at least one item",
 		Bounds:      map[string]string{"quick": "lengths 0..2 in the full product, lengths up to 33 for 4 collection kinds, nesting depth 2", "thorough": "lengths 0..3, nesting depth 2"},
 		Assumptions: []string{"iteration over maps is C10's subject, not enumerated here"},
@@ -624,18 +649,39 @@ func init() {
 			for _, coll := range []string{"strings", "ints", "structs", "anysnil"} {
 				for _, n := range []int{3, 4, 5, 7, 8, 9, 12, 13, 16, 17, 33} {
 					for _, form := range []string{"x", "ix"} {
-						for _, elem := range []string{"plain", "vif", "bind", "tmpl"} {
+						for _, elem := range []string{"plain", "vif", "bind", "tmpl", "tmplkey", "tmplshadow"} {
 							emit(&c04Case{Coll: coll, Len: n, Path: "xs", Form: form, Var: "it", Else: "adj", Elem: elem, Root: "map", Print: "must", Entry: "string"})
 						}
 					}
 				}
 			}
+			// the loop as the root of a component file
+			for _, coll := range []string{"strings", "structs", "nilslice", "missing"} {
+				for n := 0; n <= 3; n++ {
+					if _, present, _, _ := c04Coll(coll, n); (!present && coll != "missing") || (coll == "missing" && n != 0) {
+						continue
+					}
+					for _, form := range []string{"x", "ix"} {
+						for _, elem := range []string{"plain", "vif", "bind", "tmpl", "tmplkey"} {
+							for _, els := range []string{"none", "adj", "ws"} {
+								for _, v := range []string{"it", "outer"} {
+									emit(&c04Case{Coll: coll, Len: n, Path: "xs", Form: form, Var: v, Else: els, Elem: elem, Root: "map", Print: "must", Entry: "incroot"})
+								}
+							}
+						}
+					}
+				}
+			}
 			// spelling part: loop-variable names beyond ASCII letters and the documented spellings of the (i, v) form
-			for _, v := range []string{"größe", "élément", "項", "_x", "it2", "$v", "last", "type"} {
+			for _, v := range []string{"größe", "élément", "項", "_x", "it2", "$v", "last", "type", "key"} {
 				for _, form := range []string{"x", "ix", "ixtight", "ixpad"} {
 					for _, coll := range []string{"strings", "structs"} {
 						for n := 0; n <= 2; n++ {
-							for _, elem := range []string{"plain", "vif", "bind", "tmpl"} {
+							elems := []string{"plain", "vif", "bind", "tmpl"}
+							if v == "key" || v == "it2" || v == "last" {
+								elems = append(elems, "tmplkey", "tmplshadow")
+							}
+							for _, elem := range elems {
 								for _, root := range []string{"map", "struct"} {
 									for _, pr := range []string{"must", "expr"} {
 										emit(&c04Case{Coll: coll, Len: n, Path: "xs", Form: form, Var: v, Else: "adj", Elem: elem, Root: root, Print: pr, Entry: "string"})
@@ -666,7 +712,7 @@ func init() {
 					for _, path := range []string{"xs", "o.xs"} {
 						for _, form := range []string{"x", "ix"} {
 							for _, v := range []string{"it", "outer", "Outer", "name", "Name"} {
-								for _, el := range []string{"none", "adj", "ws"} {
+								for _, el := range []string{"none", "adj", "ws", "far"} {
 									for _, elem := range []string{"plain", "vif", "vifnone", "bind", "tmpl"} {
 										for _, root := range []string{"map", "struct", "ptr"} {
 											for _, pr := range []string{"must", "expr"} {
